@@ -5,6 +5,7 @@
 import CharsetProof.Model.Concrete
 import CharsetProof.Model.SortLarge
 import CharsetProof.Model.DecodeHelper
+import CharsetProof.Model.Cli
 namespace Charset.Driver
 open Charset
 
@@ -258,6 +259,51 @@ def handle (line : String) : String :=
         let c := (ms.drop nfirst).foldl (fun acc m => append sorter tooBig acc m) c0
         "ok " ++ " ".intercalate (c.map (fun m => asciiOfName m.enc ++ "[" ++ ",".intercalate (m.subs.map (fun s => asciiOfName s.enc)) ++ "]"))
     | _, _ => "bad-op"
+  | "cli" :: flags :: confirmAll :: files =>
+    -- flags = 6 chars 0/1: alternatives normalize minimal replace force thresholdOk
+    -- files: pathhex|contentId or MISSING|enc~textId~printedId;...  (contents/texts are opaque ids)
+    let fl := flags.toList.map (· == '1')
+    match fl with
+    | [alt, norm, mini, repl, force, thrOk] =>
+      let parseFile (f : String) : Option (Path × Option Nat × Option (List MInfo)) :=
+        match f.splitOn "|" with
+        | [ph, cid, ms] =>
+          match textOfHex ph, (if cid = "MISSING" then some none else cid.toNat?.map some) with
+          | some p, some cid =>
+            if ms = "ERR" then some (p, cid, none) else
+            let infos := (if ms = "-" then [] else ms.splitOn ";").mapM (fun m =>
+              match m.splitOn "~" with
+              | [e, t, pr] => (match t.toNat?, pr.toNat? with
+                  | some t, some pr => some (⟨nameOfAscii e, [t], [[pr]]⟩ : MInfo) | _, _ => none)
+              | _ => none)
+            infos.map (fun i => (p, cid, some i))
+          | _, _ => none
+        | _ => none
+      match files.mapM parseFile with
+      | none => "bad-op"
+      | some fs0 =>
+        let fs : FS := (fs0.filterMap (fun x => x.2.1.map (fun c => (x.1, [c])))).eraseDups
+        let detect : Bytes → Option (List MInfo) := fun c =>
+          match fs0.find? (fun x => x.2.1.map (fun k => [k]) == some c) with
+          | some x => x.2.2
+          | none => some []
+        let a : CliArgs := { files := fs0.map (·.1), alternatives := alt, normalize := norm, minimal := mini,
+                             replace := repl, force := force, thresholdOk := thrOk }
+        let (r, fs') := runCli a detect (fun _ => confirmAll == "1") fs
+        let showEntry (e : Entry) : String :=
+          s!"{hexOfText e.path}:{match e.encoding with | some n => asciiOfName n | none => "undefined"}:{match e.printed with | [[k]] => toString k | _ => "-"}:{match e.unicodePath with | some u => hexOfText u | none => "-"}"
+        let showFs := " ".intercalate ((fs'.map (fun x => s!"{hexOfText x.1}={match x.2 with | [k] => toString k | _ => "?"}")).toArray.qsort (· < ·)).toList
+        let showR := match r with
+          | .error .replaceWithoutNormalize => "err replace-without-normalize"
+          | .error .forceWithoutReplace => "err force-without-replace"
+          | .error .thresholdOutOfRange => "err threshold"
+          | .error (.missingFile p) => s!"err missing {hexOfText p}"
+          | .error (.detection p) => s!"err detection {hexOfText p}"
+          | .ok (.minimal ls) => "ok minimal " ++ "/".intercalate (ls.map (fun l => ",".intercalate (l.map (fun e => match e with | some n => asciiOfName n | none => "undefined"))))
+          | .ok (.object e) => "ok object " ++ showEntry e
+          | .ok (.array es) => "ok array " ++ ",".intercalate (es.map showEntry)
+        showR ++ " ## " ++ showFs
+    | _ => "bad-op"
   | ["codecid", n] =>
     match parseXNames n with
     | some [n] => (match lookupName Gen.labelCodec (normLabel n) with
